@@ -17,7 +17,7 @@ MANIFEST_ENTRY = {
 }
 
 
-def tasks(tier, seed):
+def _tasks_core(tier, seed):
     ts = [
         func("bt.backtest.Backtest.run"),
         dict(kind="custom", module="props.misc_tasks", fn="c11_static"),
@@ -76,3 +76,17 @@ def replay(o):
         distinct = len(set(tuple(v) for v in cols.values() if v))
         return dict(reproduced=distinct > 1, universe_columns_by_hashseed=cols)
     return None
+
+
+# functions under contract elsewhere whose obligations carry this property's tag as well (found by tools/tagaudit.py): run here too, so that a change
+# which breaks one of them is reported by this check and not only by a neighbour
+def tasks(tier, seed):
+    return _tasks_core(tier, seed) + [
+        func("bt.core.Node._set_root"),
+        func("bt.core.Node.use_integer_positions"),
+        func("bt.core.StrategyBase.set_commissions"),
+        func("bt.core.StrategyBase.allocate"),
+        func("bt.core.StrategyBase.close"),
+        func("bt.core.StrategyBase.flatten"),
+        *[func("bt.core.StrategyBase.update", variant=v) for v in ("flat", "paper", "nested", "nested-paper")],
+    ]
